@@ -5,7 +5,7 @@ import os
 from vlib import core, runner
 from .base import Check
 
-OPS = ("C ", "R ", "A ", "X ", "T ")
+OPS = ("C ", "R ", "A ", "X ", "T ", "P ", "D ")
 
 
 def signature(lines, upto, clause):
@@ -19,22 +19,25 @@ class C06(Check):
     required_theorems = ["normal_cleared_by_state_change", "sticky_cleared_only_by_recovery", "unchanged_state_keeps_ack",
                          "expiry_clears", "handled_iff", "ack_notify_once", "refuse_ok_or_acked", "cleared_event_once",
                          "ack_comments_removed", "problem_withheld_while_acked", "stored_expiry_is_requested",
+                         "comment_expiry_timer", "downtime_bit",
                          "model_trace_meets_spec", "model_trace_meets_spec_from_init"]
     technique = ("Lean 4 proof (closed form of every operation + relation between the specification's bookkeeping and the model state, "
                  "induction over the history; ghost-counter balance for the events) over a hand-written model; correspondence by exhaustive + "
-                 "random differential execution of the real API actions, external commands, cluster handlers and ProcessCheckResult")
-    level_text = ("Machine-checked theorems (Lean 4 kernel): for every configuration and every finite sequence of acknowledge (API action, "
+                 "random differential execution of the real HTTP dispatcher / API actions, external commands, cluster handlers, ProcessCheckResult "
+                 "and the comment-expiry timer")
+    level_text = ("Machine-checked theorems (Lean 4 kernel): for every configuration and every finite sequence of acknowledge (HTTP request / API action, "
                   "ACKNOWLEDGE_*_PROBLEM[_EXPIRE], event::SetAcknowledgement; normal/sticky, any expiry, notify, persistent), remove-acknowledgement "
-                  "(three entry points), check results and time advances with arbitrary times, the model's trace satisfies the executable "
+                  "(three entry points), check results, time advances, runs of the comment-expiry timer and downtimes coming and going, with arbitrary "
+                  "times, the model's trace satisfies the executable "
                   "specification of the property (clearing rules, expiry, handled, one Acknowledgement notification, refusals, one cleared event per "
                   "clearing, comment removal), without further hypothesis (F-C06a, found by this check, is fixed in /repo by 6eaa5f1 and kept as a "
                   "regression case). The model is tied to the code by running the "
-                  "real entry points on real Host/Service objects over all sequences of 4 (5 thorough) operations from a 12-symbol alphabet x "
+                  "real entry points on real Host/Service objects over all sequences of 4 (5 thorough) operations from a 15-symbol alphabet x "
                   "host/service x max_check_attempts 1..2 plus random histories with times, and diffing every observation; the same specification "
                   "predicate is evaluated on the implementation's own trace")
     level_note = ("Trusted: Lean kernel (+ propext, Classical.choice, Quot.sound), sampled correspondence of the hand-written model, harness/driver. "
-                  "Not modelled: downtimes, reachability, flapping, pausing, the zone test of the cluster handlers (C13), the comment-expiry and "
-                  "suppressed-notification timers (C02), the HTTP layer in front of the API action.")
+                  "Not modelled: reachability, flapping, pausing, the zone test of the cluster handlers (C13), the suppressed-notification timer (C02), "
+                  "a downtime's own life cycle (C05; it enters as the bit 'in effect'); an HTTP request is modelled as the API action it reaches.")
     trusted_base = [
         "modelled, not verified: Checkable::GetAcknowledgement/AcknowledgeProblem/ClearAcknowledgement/GetHandled, the acknowledgement and "
         "notification-suppression lines of ProcessCheckResult, RemoveAckComments, the acknowledgement entry points of ApiActions, "
@@ -45,8 +48,11 @@ class C06(Check):
     ]
     assumptions = [
         "times used by the harness are positive integers (exact in binary64)",
-        "no downtime, no dependency, flapping disabled, object not paused, no ApiListener (cluster relay is a no-op)",
-        "the comment-expiry timer and the suppressed-notification timer do not run (virtual clock, timers not pumped)",
+        "no dependency, flapping disabled, object not paused, no ApiListener (cluster relay is a no-op)",
+        "downtimes are fixed downtimes constructed directly (as test/icinga-checkresult.cpp does) that are in effect while registered",
+        "only the comment-expiry timer becomes due when the harness pumps (Timer::VerifFireDue): the timers Checkable::Start creates are "
+        "parked in the far future; whether the timer ran is taken from the implementation (oracle input on the P line)",
+        "the API user of the HTTP requests holds the permission actions/* (authorisation is C18's subject)",
         "the API action's 'expiry' parameter is passed iff it is non-zero",
         "ConfigObjectsSharedLock can be taken (no reload in progress); worker processes are exec'ed, not only forked, so that they do not share it",
     ]
@@ -116,9 +122,10 @@ class C06(Check):
         res.traces_validated = stats["cases"]
         res.exhaustive = True
         n = 5 if tier == "thorough" else 4
-        res.rule = (f"exhaustive: every sequence of {n} operations over a 12-symbol alphabet (results OK/CRITICAL/WARNING, a late OK result, "
-                    "acknowledge via API normal / API sticky+persistent+expiry / external command / external _EXPIRE command / cluster event, "
-                    "remove via API / external command, time advance) x host/service x max_check_attempts 1..2 from a never-checked object "
+        res.rule = (f"exhaustive: every sequence of {n} operations over a 15-symbol alphabet (results OK/CRITICAL/WARNING, a late OK result, "
+                    "acknowledge via HTTP request normal / API action sticky+persistent+expiry / external command / external _EXPIRE command / "
+                    "cluster event, remove via HTTP request / external command, time advance, timer pump, downtime on / off) x host/service x "
+                    "max_check_attempts 1..2 from a never-checked object "
                     "(distinct by construction); plus seeded random histories (length up to 40/120, all entry points, expiry in the future / now / "
                     "past / none, late and outdated results, volatile, max 1..4) and the corpus. evaluations = operations executed on the real "
                     "code; a case counts as non-trivial when an acknowledgement was set and later cleared, distinct by hash of its operation "
